@@ -5,6 +5,7 @@ import (
 	"fmt"
 	"math"
 	"sort"
+	"strings"
 
 	"gonum.org/v1/gonum/mat"
 	gstat "gonum.org/v1/gonum/stat"
@@ -320,6 +321,68 @@ func (c *checker) chi(k *chiCase) {
 	})
 }
 
+// ---- family "dom" -----------------------------------------------------------
+
+type domCase struct {
+	F     string   `json:"f"`
+	X     []int64  `json:"x"`
+	W     []int64  `json:"w"`
+	Nilw  bool     `json:"nilw"`
+	D     []int64  `json:"d"`
+	P8    int64    `json:"p8"`
+	Out   string   `json:"out"`
+	V     [2]int64 `json:"v"`
+	Count []int64  `json:"count"`
+}
+
+func (c *checker) dom(k *domCase) {
+	x, w := floats(k.X), weights(k.W, k.Nilw)
+	if !k.Nilw && w == nil {
+		w = []float64{}
+	}
+	ctx := fmt.Sprintf("%s x=%v w=%v d=%v p=%d/8", k.F, x, w, k.D, k.P8)
+	var got float64
+	var cnt []float64
+	var o core.Outcome
+	switch k.F {
+	case "QuantileEmp":
+		o = core.Call(func() { got = gstat.Quantile(float64(k.P8)/8, gstat.Empirical, x, w) })
+	case "QuantileLin":
+		o = core.Call(func() { got = gstat.Quantile(float64(k.P8)/8, gstat.LinInterp, x, w) })
+	case "CDF":
+		o = core.Call(func() { got = gstat.CDF(float64(k.P8), gstat.Empirical, x, w) })
+	case "KS.xempty":
+		o = core.Call(func() { got = gstat.KolmogorovSmirnov(nil, nil, x, w) })
+	case "KS.yempty":
+		o = core.Call(func() { got = gstat.KolmogorovSmirnov(x, w, []float64{}, nil) })
+	case "Histogram":
+		o = core.Call(func() { cnt = gstat.Histogram(nil, floats(k.D), x, w) })
+	default:
+		c.fail("stat:harness:unknown-quantity", "unknown dom row "+k.F)
+		return
+	}
+	c.sum.Count("values", 1)
+	name := strings.SplitN(k.F, ".", 2)[0]
+	switch {
+	case o.Runtime:
+		c.fail("stat:"+name+":runtime-panic", ctx+": runtime error "+o.Text)
+	case k.Out == "panic" && !o.Panicked:
+		c.fail("stat:"+name+":no-panic", fmt.Sprintf("%s: the documentation says this panics, but it returned %v %v", ctx, got, cnt))
+	case k.Out != "panic" && o.Panicked:
+		c.fail("stat:"+name+":panic", ctx+": in-domain call panicked: "+o.Text)
+	case k.Out == "value" && !near(got, rat(k.V), 1):
+		c.fail("stat:"+name+":value", fmt.Sprintf("%s: got %v, specification says %s", ctx, got, rat(k.V).RatString()))
+	case k.Out == "count":
+		ok := len(cnt) == len(k.Count)
+		for i := 0; ok && i < len(cnt); i++ {
+			ok = cnt[i] == float64(k.Count[i])
+		}
+		if !ok {
+			c.fail("stat:Histogram:count", fmt.Sprintf("%s: got %v, specification says %v", ctx, cnt, k.Count))
+		}
+	}
+}
+
 // more dispatches the families added after the core ones; it reports false for
 // an unknown family.
 func (c *checker) more(fam string, nontrivial *bool, err *error) bool {
@@ -353,6 +416,11 @@ func (c *checker) more(fam string, nontrivial *bool, err *error) bool {
 		if *err = json.Unmarshal(c.line, &k); *err == nil {
 			c.chi(&k)
 			*nontrivial = k.Chi[0] != 0
+		}
+	case "dom":
+		var k domCase
+		if *err = json.Unmarshal(c.line, &k); *err == nil {
+			c.dom(&k)
 		}
 	default:
 		return false
